@@ -42,6 +42,10 @@ package backtrace
 //@   loop 1 body call_in_edges: istype(cur.Node, *dataflow.CallNode) && expanded() ==> called(CallNode.In, _)
 //@   loop 1 body synthetic_in_edges: istype(cur.Node, *dataflow.SyntheticNode) && expanded() ==> called(SyntheticNode.In, _)
 //@   loop 1 body bound_var_in_edges: istype(cur.Node, *dataflow.BoundVarNode) && expanded() ==> called(BoundVarNode.In, _)
+//@   macro deadEnd() = (expanded() && len(atback(stack)) == len(athead(1, stack)) - 1)
+//@   loop 1 body free_var_dead_end_reported: istype(cur.Node, *dataflow.FreeVarNode) && deadEnd() ==> called(addTrace, _, _, _)
+//@   loop 1 body call_arg_dead_end_reported: istype(cur.Node, *dataflow.CallNodeArg) && deadEnd() && !called(ReportMissingOrNotConstructedSummary, _, _) ==> called(addTrace, _, _, _)
+//@   loop 1 body call_node_dead_end_reported: istype(cur.Node, *dataflow.CallNode) && deadEnd() ==> called(addTrace, _, _, _)
 //@   loop 1 body synthetic_keeps_context: istype(cur.Node, *dataflow.SyntheticNode) ==> !called(addNext, _, _, _, _, where(x, x.Trace != cur.Trace || x.ClosureTrace != cur.ClosureTrace), _, _, _)
 //@   loop 1 body return_keeps_context: istype(cur.Node, *dataflow.ReturnValNode) ==> !called(addNext, _, _, _, _, where(x, x.Trace != cur.Trace || x.ClosureTrace != cur.ClosureTrace), _, _, _)
 //@   loop 1 body global_read_drops_call_stack: istype(cur.Node, *dataflow.AccessGlobalNode) && !called(AccessGlobalNode.In, _) ==> !called(addNext, _, _, _, _, where(x, x.Trace != nil), _, _, _)
